@@ -236,6 +236,7 @@ type shadow struct {
 	fileKind    string
 	file        map[string]string // key -> Val token (JSON-able kinds)
 	cls         map[int]shClosure
+	vfs         map[int]*shVF // config.ValidityFlag objects: layers at the last Refresh (nil snap = never refreshed)
 	persps      map[int]map[string]string
 	userUnknown bool
 	loaded      bool // a load happened in this case
@@ -246,6 +247,12 @@ type shadow struct {
 	threads   map[int]*shThread
 	tcls      map[int]shClosure
 	committed int
+}
+
+type shVF struct {
+	refreshed bool
+	unknown   bool // refreshed while the monitor did not know the user layer
+	snap      layers
 }
 
 func newShadow() *shadow {
@@ -265,6 +272,7 @@ func (s *shadow) reset(persist bool) {
 	s.l = layers{user: map[string]string{}, dflt: map[string]string{}}
 	s.fileKind, s.file = "absent", nil
 	s.cls = map[int]shClosure{}
+	s.vfs = map[int]*shVF{}
 	s.persps = map[int]map[string]string{}
 	s.userUnknown = false
 	s.loaded = false
@@ -775,6 +783,42 @@ func monitor(c hxlib.Case, outs []string) []hxlib.Violation {
 			}
 			if want := s.expectGet(s.l, cl.key, cl.fb); want != out {
 				m.add(i, "C04:call:"+m.layeringClass(cl.key), "the getter closure must return "+want)
+			}
+		case "vfnew", "vfrefresh":
+			if len(ws) == 2 && out == "ok" {
+				id, _ := strconv.Atoi(ws[1])
+				if s.vfs == nil {
+					s.vfs = map[int]*shVF{}
+				}
+				if op == "vfnew" {
+					s.vfs[id] = &shVF{}
+				} else if vf := s.vfs[id]; vf != nil {
+					vf.refreshed, vf.unknown = true, s.userUnknown
+					vf.snap = s.l.clone()
+				}
+			}
+		case "vfvalid":
+			// the flag tells its holder that "the configuration has not been changed": while it reads valid, every
+			// getter must still return what it returned when the flag was refreshed; a flag that was never
+			// refreshed "always starts out as invalid". (Reading invalid without a change is harmless and not judged.)
+			id, _ := strconv.Atoi(ws[1])
+			vf := s.vfs[id]
+			if vf == nil || out != "valid" {
+				continue
+			}
+			if !vf.refreshed {
+				m.add(i, "C04:validity-flag:new-flag-valid", "a ValidityFlag that was never refreshed reads valid")
+				continue
+			}
+			if vf.unknown || s.userUnknown {
+				continue
+			}
+			for k, o := range s.opts {
+				fb := gval{ty: o.ty}.tok()
+				if a, b := s.expectGet(vf.snap, k, fb), s.expectGet(s.l, k, fb); a != b {
+					m.add(i, "C04:validity-flag:valid-after-change", "the flag still reads valid although option "+k+" changed from "+a+" to "+b+" since its Refresh")
+					break
+				}
 			}
 		case "uv":
 			if len(ws) != 2 || s.userUnknown {
